@@ -60,17 +60,19 @@ fn tokenize(s: &str) -> Option<String> {
 }
 
 fn check_program(src: &str, rep: &mut Report, stream: &str) {
+    // a fixed probe of a recorded finding carries the class of that finding (KNOWN_FINDINGS.json matches on it)
+    let cls = stream.strip_prefix("probe:").unwrap_or("unclassified");
     let p = RoocParser::new(src.to_string());
     let f1 = match std::panic::catch_unwind(|| p.format()) { Ok(Ok(f)) => f, Ok(Err(_)) => { rep.count(&format!("{stream}.does_not_parse")); return; } Err(_) => { rep.fail(json!({"prop":"C18","kind":"panic","input":src})); return; } };
     rep.count(&format!("{stream}.formatted"));
     let p2 = RoocParser::new(f1.clone());
-    let f2 = match p2.format() { Ok(f) => f, Err(e) => { rep.fail(json!({"prop":"C11","kind":"formatted-text-does-not-parse","class":"unclassified","input":src,"formatted":f1,"error":format!("{:?}", e).chars().take(200).collect::<String>()})); return; } };
-    if f2 != f1 { rep.fail(json!({"prop":"C11","kind":"format-not-idempotent","class":"unclassified","input":src,"formatted":f1,"formatted_twice":f2})); }
+    let f2 = match p2.format() { Ok(f) => f, Err(e) => { rep.fail(json!({"prop":"C11","kind":"formatted-text-does-not-parse","class":cls,"input":src,"formatted":f1,"error":format!("{:?}", e).chars().take(200).collect::<String>()})); return; } };
+    if f2 != f1 { rep.fail(json!({"prop":"C11","kind":"format-not-idempotent","class":cls,"input":src,"formatted":f1,"formatted_twice":f2})); }
     let m1 = p.parse_and_transform(vec![], &IndexMap::new());
     let m2 = p2.parse_and_transform(vec![], &IndexMap::new());
     match (m1, m2) {
-        (Ok(a), Ok(b)) => { rep.count(&format!("{stream}.compiled_both")); if let Err(why) = model_eq(&a, &b) { rep.fail(json!({"prop":"C11","kind":"formatting-changes-the-compiled-model","class":"unclassified","input":src,"formatted":f1,"difference":why})); } }
-        (Ok(_), Err(e)) => rep.fail(json!({"prop":"C11","kind":"formatting-makes-a-valid-program-invalid","class":"unclassified","input":src,"formatted":f1,"error":e.chars().take(200).collect::<String>()})),
+        (Ok(a), Ok(b)) => { rep.count(&format!("{stream}.compiled_both")); if let Err(why) = model_eq(&a, &b) { rep.fail(json!({"prop":"C11","kind":"formatting-changes-the-compiled-model","class":cls,"input":src,"formatted":f1,"difference":why})); } }
+        (Ok(_), Err(e)) => rep.fail(json!({"prop":"C11","kind":"formatting-makes-a-valid-program-invalid","class":cls,"input":src,"formatted":f1,"error":e.chars().take(200).collect::<String>()})),
         (Err(_), _) => rep.count(&format!("{stream}.original_does_not_compile")),
     }
 }
@@ -132,6 +134,9 @@ fn main() {
     for _ in 0..n { let k = 2 + r.below(4); let mut e = atoms[r.below(atoms.len())].to_string();
         for _ in 0..k { let o = aops[r.below(4)]; let b = atoms[r.below(atoms.len())]; e = match r.below(4) { 0 => format!("({e}) {o} {b}"), 1 => format!("{b} {o} ({e})"), 2 => format!("-({e}) {o} {b}"), _ => format!("{e} {o} {b}") }; }
         snippets.push(e); }
+    // a number written against every kind of operand with an explicit `*` (the implied form `2x` exists only for names)
+    for k in ["2", "0.5", "3"] { for b in ["A[0]", "A[1 + 1]", "len(A)", "x_1", "x_{1 + 1}", "sum(i in A){ i }", "abs{x}", "max{x, y}", "n", "(x + y)", "x"] {
+        snippets.push(format!("{k} * {b}")); snippets.push(format!("{k} * {b} * x + y")); snippets.push(format!("y - {k} * {b}")); } }
     for sn in snippets.iter() {
         let src = format!("min {sn}\ns.t.\n    c_1: {sn} >= 1\n    x + y + z + x_0 + x_1 + x_2 + x_3 >= 0\nwhere\n    let A = [1, 2, 3]\n    let n = 4\ndefine\n    x, y, z as Real\n    x_i as Real for i in 0..4");
         check_program(&src, &mut rep, "snippet");
@@ -171,6 +176,15 @@ fn main() {
         let src = format!("min x\ns.t.\n    x >= 1\nwhere\n    let k = {c}\ndefine\n    x as Real");
         check_program(&src, &mut rep, "consts");
     }
+    // (a5) the witnesses of the recorded formatter findings F60-F64, each under the class of its finding
+    let probes: [(&str, &str); 5] = [
+        ("multi-line-string-constant", "min x\ns.t.\n    x >= 1\nwhere\n    let s = \"a\nb\"\ndefine\n    x as Real"),
+        ("array-of-graphs-constant", "min x\ns.t.\n    x >= len(gs)\nwhere\n    let gs = [Graph { A -> [B], B }]\ndefine\n    x as Real"),
+        ("range-call-as-constant", "min x\ns.t.\n    x >= len(r)\nwhere\n    let r = range(0, 3, false)\ndefine\n    x as Real"),
+        ("string-literal-compound-index", "min x_a + x_5\ns.t.\n    x_{\"a\"} >= 1\n    x_5 >= 2\nwhere\n    let a = 5\ndefine\n    x_{\"a\"} as NonNegativeReal\n    x_5 as NonNegativeReal"),
+        ("fractional-compound-index", "min x_{1.5}\ns.t.\n    x_{1.5} >= 1\ndefine\n    x_{1.5} as NonNegativeReal"),
+    ];
+    for (cls, src) in probes.iter() { check_program(src, &mut rep, &format!("probe:{cls}")); }
     // (b) whole programs from the repository
     if let Ok(f) = std::fs::File::open(corpus_path) {
         for line in std::io::BufReader::new(f).lines() {
